@@ -112,6 +112,35 @@ def run(ctx):
             report("Create over existing output files failed (%s): %s" % (mode, i[:80]), replay)
         elif bad:
             report("Create over existing (longer) output files leaves different bytes than in a fresh directory: %s (%s)" % (bad, mode), replay)
+    # ---------------- several Creates in ONE process, from different current directories, relative paths ----------------
+    # (a result that depends on what the process did before - a working directory looked up once, a table built once -
+    # is invisible to one call per process)
+    sq_in = {SETDIR + "/n1.dat": L.gen_content(rng, "random", 23), SETDIR + "/sub/n2.dat": L.gen_content(rng, "random", 9),
+             "/elsewhere/n1.dat": L.gen_content(rng, "random", 17), "/elsewhere/sub/n2.dat": L.gen_content(rng, "random", 9)}
+    steps = [("/elsewhere", "first.par2", 4, 2, 1, ["n1.dat"]),
+             (SETDIR, "out.par2", 8, 3, 2, ["n1.dat", "sub/n2.dat"]),
+             ("/elsewhere/sub", "../third.par2", 4, 1, 1, ["n2.dat", "../n1.dat"])]
+    toks = ["p2", "createseq", "real", str(len(steps))]
+    for cwd_, par_, S_, np_, g_, fl_ in steps:
+        toks += [L.hx(cwd_), L.hx(par_), str(S_), str(np_), str(g_), str(len(fl_))] + [L.hx(f_) for f_ in fl_]
+    sq_line = " ".join(toks + L.fs_tokens(sq_in, dirs=["/elsewhere/sub", SETDIR + "/sub"]))
+    # the same three Creates, each by itself with absolute paths (implementation and model)
+    abs_lines = [L.line_create("p2", "mem", posixpath.normpath(posixpath.join(cwd_, par_)), S_, np_, g_,
+                               [posixpath.normpath(posixpath.join(cwd_, f_)) for f_ in fl_], sq_in) for cwd_, par_, S_, np_, g_, fl_ in steps]
+    sq_res = ctx.run_lines(vh, [sq_line])[0]
+    ai, am = P.run_both(ctx, vh, model, abs_lines)
+    want = {}
+    for i_, m_ in zip(ai, am):
+        if L.canon(i_, "mem") != L.canon(m_, "mem"):
+            report("Create differs from the model (absolute paths)", {"lines": abs_lines, "impl": i_[:800], "model": m_[:800], "class": {"kind": "sequence"}}, True)
+        want.update(L.parse_result(m_)["changed"])
+    psq = L.parse_result(sq_res)
+    ctx.count("sequence|" + L.hx(L.md5(sq_line.encode())), True)
+    dist["create_sequences_in_one_process"] = 1
+    if psq["res"] != "ok|ok|ok" or psq["changed"] != want:
+        diff = sorted(set(k_ for k_ in set(psq["changed"]) | set(want) if psq["changed"].get(k_) != want.get(k_)))
+        report("Creates run one after the other in one process, each from its own current directory with relative paths, do not give what each gives by itself: results %s, differing files %s" % (psq["res"], diff[:6]),
+               {"lines": [sq_line], "mode": "real", "impl": sq_res[:1500], "expected_files": sorted(want), "class": {"kind": "sequence"}})
     # ---------------- CLI level (real directories): current directory x spelling ----------------
     inputs = {SETDIR + "/n1.dat": L.gen_content(rng, "random", 11), SETDIR + "/sub/n2.dat": L.gen_content(rng, "random", 6), SETDIR + "/n3": L.gen_content(rng, "lowent", 13)}
     fpaths = list(inputs)
